@@ -56,6 +56,11 @@ CHECKS = {
    "Each compiled circuit is validated against an independent exact reference: the specification never builds swap networks or tensor products, so a wrong permutation, argument order or swap-back in the compiler shows as an entrywise difference for the placement that triggers it; all gates on all placements of 1..3 (4) qubit registers and all two-gate circuits over a gate subset are enumerated.",
    "Tolerance 2e-5 * 2^n absorbs float32 rounding only; parametric gates at multiples of pi/2 (rx, ry, rz) and pi/4 (phase shift r) since other angles are not representable in the ring; 'p' is the S gate in this code base. Trusted: TLC, conversion of ring elements to complex128.",
    "DESIGN.md §4 C14", "bmverif"),
+ "C11": ("model_checking",
+   "persistence as a stuttering step of the TLA+ models (BMTopology!SaveLoad, BMPersist): every state of the topology graph explored by TLC and every machine descriptor of the BMPersist catalogue is built as a real Bondmachine, saved and reloaded through Jsoner/json/Dejsoner; the reloaded topology is trace-validated by TLC against BMTopologyAbs; re-save byte equality, reflection-driven structural comparison, Verilog equality and simulation-digest equality are checked on the catalogue",
+   "Every reachable bond graph of the bounded topology model and a catalogue covering every static opcode, the dynamically named opcode families that can be created offline, every shared-object kind with one or two attached processors, threaded processors and WordSize overrides go through the real save/load path; the abstract state must not move (TLC) and every exported field of the live structs must survive (reflection), so a field forgotten in Jsoner/Dejsoner or a name that is not re-resolved on load is found.",
+   "Topology bounds as C10 (quick: 2 configurations, 2588 states). FloPoCo and linear-quantizer opcodes cannot be created offline (external generator / ranges file); machines using fxps opcodes are not rendered to Verilog (external sources under /tmp/fxpcode). Machines are built through the API with transient generation fields unset, then compared before anything is generated.",
+   "DESIGN.md §4 C11", "bmverif"),
 }
 NOT_APPLICABLE = {
  "C18": "static well-formedness of generated Verilog text (parse/lint judgement): no state, transitions or behaviour for a TLA+ specification to decide; see DESIGN.md §5",
